@@ -1,0 +1,46 @@
+//! Verification hooks for the mrt-file-in unit (feature `verif-hooks`,
+//! add-only): run the real `process_file` and the real queue consumer /
+//! result loop from an external harness.
+use std::path::PathBuf;
+use std::sync::Arc;
+
+use tokio::sync::mpsc;
+
+use super::{MrtFileIn, MrtInRunner, OneOrManyPaths, QueueEntry};
+use crate::comms::{Gate, Terminated};
+use crate::ingress::{self, IngressId};
+
+/// The real `MrtInRunner::process_file`; the error is rendered as text.
+pub async fn process_file(
+    gate: Gate,
+    ingresses: Arc<ingress::Register>,
+    parent_id: IngressId,
+    filename: PathBuf,
+) -> Result<(), String> {
+    MrtInRunner::process_file(gate, ingresses, parent_id, filename)
+        .await
+        .map_err(|e| e.to_string())
+}
+
+/// A queue as `MrtFileIn::run` creates it, and the real `MrtInRunner::run`
+/// on it (queue consumer task + result loop). Resolves when the gate
+/// terminates.
+pub fn queue() -> (mpsc::Sender<QueueEntry>, mpsc::Receiver<QueueEntry>) {
+    mpsc::channel::<QueueEntry>(1024)
+}
+
+pub async fn run(
+    gate: Gate,
+    ingresses: Arc<ingress::Register>,
+    parent_id: IngressId,
+    queue_tx: mpsc::Sender<QueueEntry>,
+    queue_rx: mpsc::Receiver<QueueEntry>,
+) -> Result<(), Terminated> {
+    let config = MrtFileIn {
+        filename: OneOrManyPaths::Many(vec![]),
+        update_path: None,
+    };
+    MrtInRunner::new(config, gate, ingresses, parent_id, queue_tx)
+        .run(queue_rx)
+        .await
+}
